@@ -21,6 +21,8 @@ Trees == {T \in SUBSET Universe : Root \in T /\ \A p \in T : p = Root \/ DirPart
 U3 == { <<>>, << <<97>> >>, << <<98>> >>, << <<97>>, <<97>> >>, << <<97>>, <<98>> >>,
         << <<97>>, <<97>>, <<99>> >>, << <<98>>, <<97>> >> }
 
+U4 == U3 \cup { << <<98>>, <<97>>, <<99>> >>, << <<99>> >>, << <<97>>, <<98>>, <<97>> >> }
+
 \* the walk: a child is visited iff its parent was visited and the child does not match
 RECURSIVE Visited(_, _, _)
 Visited(T, Mt, d) ==
